@@ -489,6 +489,12 @@ VALID_CORPUS = [
     "module ifb\n implicit none\n interface\n  subroutine s(a)\n  end subroutine s\n  function f(i)\n  end function f\n end interface\nend module ifb\n",
 ]
 
+KNOWN_UNREPORTED = [
+    ("C07:missing-type-not-accessible-private",
+     "module types_mod\n implicit none\n private\n type :: counter\n  integer :: n\n end type counter\nend module types_mod\n"
+     "module user_mod\n implicit none\n type(counter) :: c\nend module user_mod\n", 'Object "counter" not found in scope', 9),
+]
+
 # valid programs on which the unmodified tree publishes an error: known findings, each with its own signature
 KNOWN_INVALID = [
     ("C07:main-program-without-program-statement", "integer :: i\ni = 1\nend\n"),
@@ -503,6 +509,13 @@ def check_corpus(ctx):
         if errs:
             ctx.report("C07:error-on-valid", "an error-severity diagnostic on a valid program: %s (line %d)" % (errs[0][0], errs[0][2]),
                        {"kind": "counterexample", "input": {"text": text}, "implementation": diags})
+    # documented defect classes that the unmodified tree does not report: (signature, text, message, line)
+    for sig, text, msg, line in KNOWN_UNREPORTED:
+        diags = diagnostics_of(text)
+        ctx.count(("defect-corpus", sig), True)
+        if not any(d[0] == msg and d[1] == 1 and d[2] == line for d in diags):
+            ctx.report(sig, "the seeded defect is not reported: expected '%s' (error) on line %d" % (msg, line),
+                       {"kind": "counterexample", "input": {"text": text}, "implementation": diags, "oracle": [msg, 1, line]})
     for sig, text in KNOWN_INVALID:
         diags = diagnostics_of(text)
         ctx.count(("valid-corpus", sig), True)
